@@ -27,6 +27,16 @@ CHECKS = {
          "Trusted: the 15-line position bookkeeping of the layout engine (Pen::put) and the by-construction choice of the offending token. Errors that carry no location or an empty stack (user throw, errors passing through try/finally, ThrownValue from module evaluation) are counted as unjudged. User code entered from natives (callbacks, getters, call/apply) is excluded by gate C20-native-callback-frames while that finding is open. Lone CR, U+2028/2029 line ends and nested '/*' inside block comments are outside the generated domain.",
          "property-based random generation (proptest choice tape) with a closed-form oracle computed by the generator + enumerated grid",
          "§10 C20"),
+ "C05": ("exploration",
+         "Every case is one source text run through Parser::parse_program+Compiler::compile_program (all cases) and Interpreter::prepare as script / as module / provide_module (1 generated case in 4, all pinned and deep cases) on a thread with a fixed 8 MiB stack, the H2 parser work limit armed at 64+40*len+4*len^2. Sampled: bytes->lossy UTF-8, valid UTF-8 over a pool with every line terminator/BOM/astral characters, token soup over a 350-item JS/TS vocabulary, a template grammar (expr/stmt/member/type/pattern) with injected glitches, 1-3 token mutations of 32 embedded valid programs, random composites of nesting wrappers. Enumerated: every token prefix / single-token deletion / duplication of the corpus; 237 nesting and length families at every n in 0..=320, their doubling series n=8..1024 (ratio w(2n)/w(n)<=5), the acceptance boundary of each family (deepest legal tree through compiler and destructors), and deep probes n=2048..20000 (thorough: ..100000), one case per (family,n) so a dead worker is attributed. Thorough tier adds a coverage-guided libFuzzer campaign (fuzz/fuzz_targets/fuzz_prepare.rs) with the same in-target oracle.",
+         "Trusted: H2 counts tokens produced and parser advances (byte-level work inside one token and compile time are not counted; they are covered only by the watchdog, which is never a verdict). Accept/reject correctness is not judged (C03/C01); the only pinned acceptance is the 32-program seed corpus (regress/C05/corpus-accepted.json). Polynomial bound verified on the generated sizes only.",
+         "property-based random generation (proptest choice tape) + enumerated families/series/boundaries + crash containment by supervisor/journal + coverage-guided fuzzing (thorough)",
+         "§10 C05"),
+ "C16": ("exploration",
+         "Seeded random generation (proptest choice tape) of JSON documents (depth<=6, all Unicode scalar values and every escape spelling in strings and keys, special/index-like/duplicate keys, integers to 2^53, doubles from random bits, long decimal expansions, exact rounding ties), of invalid texts (22 planted defect kinds) and of small programs building acyclic and cyclic value graphs; plus fixed extremes (depth 100..1000, width 10^4, 10^5-char strings, number families) and an exhaustive sweep of every Unicode scalar value as string content and key, raw and escaped. Each document crosses the boundary on every path (create_from_json, JSON.parse, JSON.stringify with 6 indents, js_value_to_json, exported value, tsrun_json_parse/stringify) and is compared with the generator's tree, with an in-script walker using ordinary reads, and through an independent strict JSON parser with exact numbers. Sampled, not exhaustive, except the Unicode sweep.",
+         "Trusted: Rust's str::parse::<f64>; the strict JSON parser and the ES serialisation model in harness/src/props/c16/ (the latter cross-checked against node on every graph case); serde_json in the harness only for well-formedness. Outside the domain: lone-surrogate escapes, number tokens beyond the double range, revivers/replacers, layout of indented output, key order. Open known findings exclude by construction: JSON.parse of texts nested >= 128 levels, user toJSON methods and getters in JSON.stringify.",
+         "property-based random generation (proptest choice tape) + exhaustive Unicode sweep against the generator's model, an independent parser and a reference engine",
+         "§10 C16"),
 }
 
 NOT_YET = {}
